@@ -34,11 +34,11 @@ type simReader struct {
 	endErr   error
 	withData bool // deliver the error together with the last data (n>0, err)
 	off      int
-	bounds   map[int]bool              // stream offsets at which a Read returned
-	readAt   map[int]time.Duration     // chunk end offset -> time its first byte was read
-	arriveAt map[int]time.Duration     // chunk end offset -> arrival time
-	waitedAt map[int]bool              // chunk end offset -> the Read was already waiting when it arrived
-	nextCall map[int]time.Duration     // stream offset -> time of the first Read call made after everything before it was consumed
+	bounds   map[int]bool          // stream offsets at which a Read returned
+	readAt   map[int]time.Duration // chunk end offset -> time its first byte was read
+	arriveAt map[int]time.Duration // chunk end offset -> arrival time
+	waitedAt map[int]bool          // chunk end offset -> the Read was already waiting when it arrived
+	nextCall map[int]time.Duration // stream offset -> time of the first Read call made after everything before it was consumed
 	waiting  bool
 	eofRead  time.Duration
 	eofSeen  bool
@@ -116,7 +116,7 @@ type parserCase struct {
 	Chunks     []pchunk `json:"chunks"`
 	EndKind    int      `json:"end_kind"` // 0 EOF, 1 error, 2 (n>0,err), 3 Close() then nudge
 	EndGapUs   int64    `json:"end_gap_us"`
-	CutAt      int      `json:"cut_at"` // stream truncated to this many bytes (-1: not cut)
+	CutAt      int      `json:"cut_at"`   // stream truncated to this many bytes (-1: not cut)
 	Consumer   int      `json:"consumer"` // 0 prompt+finish, 1 prompt+retain, 2 slow, 3 one long stall, 4 stops reading, 5 mixed finish
 	ConsDelay  int64    `json:"cons_delay_us"`
 	StallAfter int      `json:"stall_after"`
@@ -842,7 +842,7 @@ func compareItems1(actual []ansi.Sequence, ref []simterm.Item, bounds map[int]bo
 			run := ref[ri:rj]
 			var text strings.Builder
 			offs := make([]int, 0, len(run)+1) // stream offset of each rune
-			byteOffs := []int{}                 // byte offset in text of each rune
+			byteOffs := []int{}                // byte offset in text of each rune
 			for _, t := range run {
 				byteOffs = append(byteOffs, text.Len())
 				text.WriteRune(t.Rune)
